@@ -1,8 +1,185 @@
-(* C16 - a command means the same via every entry path (statements only). *)
+(* C16 - a command means the same via every entry path (both parsers, Lua redis.call).
+   The theorems are laws of the ONE reference grammar Model/CmdGrammar.v (table [grammar],
+   interpreter [parse_frame]); that Command::from_resp, Command::from_resp_zero_copy and the
+   redis.call translator each equal this grammar is decided by the correspondence
+   (Corr/C16.v, harness/src/bin/c16.rs), not by a theorem.  Statements only. *)
 From Coq Require Import NArith ZArith List String Bool.
 From RV Require Import Lib.Hex Model.CmdGrammar Proofs.CmdGrammarProofs.
 Import ListNotations.
+Local Open Scope string_scope.
+Local Open Scope list_scope.
 
-Theorem C16_names_distinct : nodupb (names grammar) = true.
-Proof. exact grammar_names_distinct. Qed.
+(* ---- one outcome per frame.  [parses f r]: "some row of the table named like the frame's
+   first element yields r, or no row has that name and r is Unknown(name)".  The relation is
+   functional and is what the interpreter computes: no two rows match one name. *)
+Theorem C16_parse_deterministic :
+  forall f r1 r2, parses f r1 -> parses f r2 -> r1 = r2.
+Proof. exact parse_deterministic. Qed.
+Print Assumptions C16_parse_deterministic.
+
+Theorem C16_parse_frame_is_the_relation :
+  forall f r, parses f r <-> r = parse_frame f.
+Proof. intros f r. split; [apply parses_functional|intros ->; apply parses_parse_frame]. Qed.
+Print Assumptions C16_parse_frame_is_the_relation.
+
+Theorem C16_names_distinct :
+  NoDup (names grammar)
+  /\ Forall (fun ct => NoDup (names (snd ct))) subtables
+  /\ (forall n r, In (n, r) grammar -> lookup n grammar = Some r).
+Proof.
+  split; [apply nodupb_NoDup, grammar_names_distinct|]. split; [|exact grammar_lookup].
+  apply Forall_forall. intros ct H. apply nodupb_NoDup.
+  pose proof subtables_nodup as HN. rewrite forallb_forall in HN. exact (HN _ H).
+Qed.
 Print Assumptions C16_names_distinct.
+
+(* ---- letter case.  The outcome depends on the command name only through its upper-cased
+   UTF-8 decoding; in particular every ASCII case variation of an ASCII name parses alike. *)
+Theorem C16_name_case_insensitive :
+  forall n n' args, ascii n -> case_variant n n' ->
+    parse_frame (Some (EBulk n :: args)) = parse_frame (Some (EBulk n' :: args)).
+Proof. exact name_case_insensitive. Qed.
+Print Assumptions C16_name_case_insensitive.
+
+Theorem C16_name_only_through_upper :
+  forall n n' args, ustr n = ustr n' ->
+    parse_frame (Some (EBulk n :: args)) = parse_frame (Some (EBulk n' :: args)).
+Proof. exact name_only_through_ustr. Qed.
+Print Assumptions C16_name_only_through_upper.
+
+(* ---- parse (unparse c) = c for every canonical command of the model, with every command
+   name, subcommand and option keyword the printer emits rewritten by any [k] that keeps
+   their upper-cased decoding (any letter-case variation of the keywords). *)
+Theorem C16_parse_unparse :
+  forall (k : bytes -> bytes), (forall w, ustr (k w) = ustr w) ->
+  forall c, canonical c = true ->
+    exists ps, unparse_k k c = Some ps /\ parse_cmd ps = POk c.
+Proof. exact parse_unparse_k. Qed.
+Print Assumptions C16_parse_unparse.
+
+Corollary C16_parse_unparse_lower_case_keywords :
+  forall c, canonical c = true ->
+    exists ps, unparse_k lower_kw c = Some ps /\ parse_cmd ps = POk c.
+Proof. exact (parse_unparse_k lower_kw lower_kw_ok). Qed.
+Print Assumptions C16_parse_unparse_lower_case_keywords.
+
+(* ---- arity: a row's arity window is checked before anything else and answers that row's
+   arity text *)
+Theorem C16_arity_error :
+  forall n rl args name,
+    In (name, rl) grammar -> ustr n = name -> arity_ok rl (List.length args) = false ->
+    parse_frame (Some (EBulk n :: args)) = PErr (arity_text rl).
+Proof. exact arity_error. Qed.
+Print Assumptions C16_arity_error.
+
+(* ---- totality without panics (the model's PPanic outcome is unreachable since the repairs
+   b9ac17d and ac9d92c; before them EVAL s -1 and SCAN 0 MATCH reached it) *)
+Theorem C16_no_panic : forall f, parse_frame f <> PPanic.
+Proof. exact no_panic. Qed.
+Print Assumptions C16_no_panic.
+
+Theorem C16_eval_negative_numkeys :
+  forall name s z rest,
+    (name = tx "EVAL" \/ name = tx "EVALSHA") -> (z < 0)%Z -> in_range I64_MIN I64_MAX z = true ->
+    exists c, parse_cmd (name :: s :: itoa z :: rest) = PErr c
+              /\ c = tx "ERR Number of keys can't be negative".
+Proof. exact eval_negative_numkeys. Qed.
+Print Assumptions C16_eval_negative_numkeys.
+
+(* ---- the Lua bridge: on the names redis.call knows it is the same grammar *)
+Theorem C16_lua_parse_eq_parse :
+  forall n rest, lua_supported (ustr n) = true -> lua_parse (n :: rest) = parse_cmd (n :: rest).
+Proof. exact lua_parse_eq_parse. Qed.
+Print Assumptions C16_lua_parse_eq_parse.
+
+Theorem C16_lua_no_panic : forall parts, lua_parse parts <> PPanic.
+Proof. exact lua_no_panic. Qed.
+Print Assumptions C16_lua_no_panic.
+
+(* for ANY executor: a script call runs the executor on the same command, so the keyspace
+   after it is the keyspace after the direct call, and the reply is the converted reply *)
+Theorem C16_script_call_eq_direct :
+  forall (state : Type) (exec : state -> cmd -> state * resp) s n rest,
+    lua_supported (ustr n) = true ->
+    (forall t, parse_cmd (n :: rest) = PErr t -> lossy t = t) ->
+    script_call state exec s (n :: rest) =
+      (fst (direct_call state exec s (n :: rest)),
+       match parse_cmd (n :: rest) with
+       | POk _ => conv (snd (direct_call state exec s (n :: rest)))
+       | _ => snd (direct_call state exec s (n :: rest))
+       end).
+Proof.
+  intros state exec s n rest H HU. apply script_call_eq_direct; auto. apply no_panic.
+Qed.
+Print Assumptions C16_script_call_eq_direct.
+
+(* known finding C16-lua-command-subset: outside the 34 names the bridge refuses what a
+   client can send *)
+Theorem C16_lua_subset_refuted :
+  exists parts c t, parse_cmd parts = POk c /\ lua_parse parts = PErr t.
+Proof.
+  exists [tx "SUBSTR"; tx "j"; tx "2"; tx "-1"]. do 2 eexists. exact lua_subset_witness.
+Qed.
+Print Assumptions C16_lua_subset_refuted.
+
+Theorem C16_lua_refuses_outside_subset :
+  forall n rest, lua_supported (ustr n) = false ->
+    lua_parse (n :: rest) = PErr (tx "ERR Unknown Redis command '" ++ ustr n ++ tx "' called from Lua").
+Proof. exact lua_parse_refuses. Qed.
+Print Assumptions C16_lua_refuses_outside_subset.
+
+(* ---- value conversion.  lua_to_resp (resp_to_lua v) = v whenever v holds no nil array, no
+   nil bulk inside an array, and its status/error texts are valid UTF-8 on one line. *)
+Theorem C16_conv_roundtrip :
+  forall v, conv_ok v = true -> lua_to_resp (resp_to_lua v) = v.
+Proof. exact conv_roundtrip. Qed.
+Print Assumptions C16_conv_roundtrip.
+
+(* the nil exception (known finding C16-lua-nil-not-false): the code hands a nil bulk to the
+   script as nil, so an array ends at its first nil on the way back; with Redis' documented
+   nil -> false the round trip also holds for arrays that contain nil bulks *)
+Theorem C16_conv_nil_exception :
+  let v := RArr (Some [RBulk (Some [97%N]); RBulk None; RBulk (Some [99%N])]) in
+  lua_to_resp (resp_to_lua v) = RArr (Some [RBulk (Some [97%N])])
+  /\ lua_to_resp (resp_to_lua_redis v) = v
+  /\ lua_to_resp (resp_to_lua (RArr None)) = RBulk None.
+Proof. exact conv_nil_exception. Qed.
+Print Assumptions C16_conv_nil_exception.
+
+Theorem C16_nil_reaches_script_as_nil :
+  resp_to_lua (RBulk None) = LNil /\ resp_to_lua_redis (RBulk None) = LBool false.
+Proof. exact nil_reaches_script_as_nil. Qed.
+Print Assumptions C16_nil_reaches_script_as_nil.
+
+Theorem C16_conv_roundtrip_with_redis_nil :
+  forall v, conv_ok_redis v = true -> lua_to_resp (resp_to_lua_redis v) = v.
+Proof. exact conv_roundtrip_redis. Qed.
+Print Assumptions C16_conv_roundtrip_with_redis_nil.
+
+(* ---- the hypotheses are satisfiable by non-trivial instances *)
+Example C16_example_set :
+  let c := Cmd "Set" [VS (tx "k"); VB [0%N; 255%N]; VOpt None; VOpt (Some (VI (-5)%Z)); VOpt None;
+                      VOpt None; VFlag false; VFlag true; VFlag true; VFlag false] in
+  canonical c = true
+  /\ unparse_k lower_kw c = Some [tx "set"; tx "k"; [0%N; 255%N]; tx "xx"; tx "get"; tx "px"; tx "-5"]
+  /\ parse_cmd [tx "sEt"; tx "k"; [0%N; 255%N]; tx "Px"; tx "-5"; tx "GET"; tx "xX"; tx "get"] = POk c
+  /\ parse_cmd [tx "SET"; tx "k"; tx "v"; tx "NX"; tx "XX"]
+     = PErr (tx "ERR XX and NX options at the same time are not compatible")
+  /\ parse_cmd [tx "set"] = PErr (tx "SET requires at least 2 arguments").
+Proof. repeat split; vm_compute; reflexivity. Qed.
+
+Example C16_example_numbers_and_names :
+  parse_cmd [tx "scan"; tx "18446744073709551616"] = PErr (tx "number too large to fit in target type")
+  /\ parse_cmd [tx "Scan"; tx "0"; tx "COUNT"; tx "-1"]
+     = POk (Cmd "Scan" [VI 0; VOpt None; VOpt (Some (VI 18446744073709551615))])
+  /\ parse_cmd [tx "INCRBYFLOAT"; tx "k"; tx "1.7976931348623158e308"]
+     = POk (Cmd "IncrByFloat" [VS (tx "k"); VF (tx "1.7976931348623158e308")])
+  /\ parse_cmd [tx "INCRBYFLOAT"; tx "k"; tx "1.797693134862315808e308"]
+     = PErr (tx "ERR increment would produce NaN or Infinity")
+  /\ parse_cmd [[239; 172; 130] ++ tx "ushall"]%N = POk (Cmd "FlushAll" [])
+  /\ parse_cmd [tx "get"; [255%N]] = POk (Cmd "Get" [VS [239; 191; 189]%N])
+  /\ lua_parse [tx "expire"; tx "s"; tx "0"; tx "Xx"]
+     = POk (Cmd "Expire" [VS (tx "s"); VI 0; VFlag false; VFlag true; VFlag false; VFlag false])
+  /\ lua_to_resp (resp_to_lua (RArr (Some [RSimple_ (tx "OK"); RInt 7; RArr (Some [RBulk (Some [0%N])])])))
+     = RArr (Some [RSimple_ (tx "OK"); RInt 7; RArr (Some [RBulk (Some [0%N])])]).
+Proof. repeat split; vm_compute; reflexivity. Qed.
